@@ -428,7 +428,7 @@ func applyDecOp(n *DecNode, op *DecOp) (next DecNode, v verdicts, ok bool) {
 			}
 			_ = before
 			if d != nil && km != kk {
-				v.add("C07", site+"|refused|"+refusalClass(n, op, &blk, kk, err), "Decoder.WriteBlock refused well-formed %s at sequence %d with %v (W=%d B=%d len(Data)=%d)", op, kk, err, W, n.Buf.BufferSize, len(n.Buf.Data))
+				v.add("C07", site+"|refused|"+refusalClass(n.Buf.BufferSize, n.Buf.WindowSize, len(m.Out), &blk, kk, err), "Decoder.WriteBlock refused well-formed %s at sequence %d with %v (W=%d B=%d len(Data)=%d)", op, kk, err, W, n.Buf.BufferSize, len(n.Buf.Data))
 			}
 		}
 		if nn != wantN {
@@ -515,8 +515,11 @@ func spinClass(n *DecNode, op *DecOp) string {
 }
 
 // refusalClass classifies a refusal of well-formed input by Decoder.WriteBlock.
-func refusalClass(n *DecNode, op *DecOp, blk *lz.Block, k int, err error) string {
-	room := int64(n.Buf.BufferSize - n.Buf.WindowSize)
+// written is the number of bytes written before the refused sequence. The
+// class "seqlen>B-W" is the recorded open finding: the sequence is longer than
+// the free space a completely drained buffer can offer, B-min(W, written). A
+// refusal of a sequence that would fit after draining is a different defect.
+func refusalClass(B, W, written int, blk *lz.Block, k int, err error) string {
 	name := "ErrFullBuffer"
 	if err != lz.ErrFullBuffer {
 		name = "errMatchLen"
@@ -524,7 +527,7 @@ func refusalClass(n *DecNode, op *DecOp, blk *lz.Block, k int, err error) string
 	if k < len(blk.Sequences) {
 		s := blk.Sequences[k]
 		g := int64(s.LitLen) + int64(s.MatchLen)
-		if g > room {
+		if g > int64(B-min(W, written)) {
 			return name + "|seqlen>B-W"
 		}
 		return name + "|seqlen<=B-W"
